@@ -69,6 +69,9 @@ ChildBad(key, sub, slots, dupkeys) ==
   IF key \in dupkeys THEN (IF sub.k = "dup" THEN {} ELSE {"duplicate-node"})
   ELSE LET S == {i \in DOMAIN slots : slots[i].key = key /\ Verdict(slots[i].T, slots[i].v) = "R"} IN
        IF S = {} THEN {}
+       \* (a mapping entry has two slots under one key; when the other one is a don't-care that the code
+       \*  happens to refuse, the single child may be its report)
+       ELSE IF \E i \in DOMAIN slots : slots[i].key = key /\ Verdict(slots[i].T, slots[i].v) = "D" THEN {}
        ELSE IF \E i \in S : TreeBad(slots[i].T, slots[i].v, sub) = {} THEN {}
        ELSE UNION { TreeBad(slots[i].T, slots[i].v, sub) : i \in S }
 
@@ -197,7 +200,9 @@ Needs(rt, inSum) ==
                         \o (IF rt.extra = <<>> THEN <<>> ELSE <<Range(rt.extra)>>)
     [] rt.k = "sum"  -> LET leaves == {i \in DOMAIN rt.ch : rt.ch[i].k = "leaf"} IN
                         NeedsSeq(rt.ch, 1, TRUE)
-                        \o (IF leaves = {} THEN <<>> ELSE <<{rt.ch[MaxOf(leaves)].val}>>)
+                        \* (a union nested in a union - an enum with values of several kinds as a member - is listed
+                        \*  among the alternatives of the enclosing one, which shows the value they were all offered)
+                        \o (IF leaves = {} \/ inSum THEN <<>> ELSE <<{rt.ch[MaxOf(leaves)].val}>>)
     [] OTHER -> <<>>
 
 RECURSIVE Sat(_, _, _, _)
